@@ -257,6 +257,7 @@ pub fn deviations() -> Vec<Dev> {
 }
 
 pub struct RoundTrip {
+    pub alignments: Vec<usize>,
     pub dir: PathBuf,
     pub devs: Vec<Dev>,
     pub max_devs: usize,
@@ -483,7 +484,8 @@ impl Space for RoundTrip {
                 _ => o.fail(Failure::new("not-deterministic", format!("{}: second compilation failed", ctx))),
             }
         }
-        for misalign in [0usize, 1] {
+        // offset 1 breaks the alignment of every integer type, offset 2 only that of the 32-bit ones
+        for misalign in self.alignments.iter().cloned() {
             o.evaluations += 1;
             let r = catch(|| load_aligned(&dir, &sys, &users, misalign));
             match r {
@@ -517,7 +519,7 @@ impl Space for RoundTrip {
 
 pub fn main(tier: Tier, replay: Option<String>) -> i32 {
     let mut rep = Report::new("C05", "model_checking", tier);
-    rep.rule = "states = sets of field deviations (on different fields) applied to the probe row / matrix of a baseline lexicon: baseline, every single deviation, every pair (and triples in the thorough tier), for a system dictionary and for a user dictionary; each accepted input is compiled twice (two threads, same timestamp; bytes must be identical), loaded at buffer alignment offsets 0 and 1, and every field of every entry plus every matrix cell is read back through the public readers; non-trivial = at least one deviation".into();
+    rep.rule = "states = sets of field deviations (on different fields) applied to the probe row / matrix of a baseline lexicon: baseline, every single deviation, every pair (and triples in the thorough tier), for a system dictionary and for a user dictionary; each accepted input is compiled twice (two threads, same timestamp; bytes must be identical), loaded at buffer alignment offsets 0, 1, 2 (thorough: and 3), and every field of every entry plus every matrix cell is read back through the public readers; non-trivial = at least one deviation".into();
     rep.assumptions = vec![
         "inputs rejected by the compiler are outside C05 and only counted".into(),
         "user-dictionary rows with cost -32768 get a computed cost by design".into(),
@@ -528,7 +530,7 @@ pub fn main(tier: Tier, replay: Option<String>) -> i32 {
     for user in [false, true] {
         let devs = deviations();
         let b = json!({"deviations": devs.len(), "max_simultaneous": tier.pick(2, 3)});
-        jobs.push(job(RoundTrip { dir: dir.clone(), devs, max_devs: tier.pick(2, 3), user }, Strategy::Bfs, Some(tier.pick(50, 2400)), b));
+        jobs.push(job(RoundTrip { alignments: tier.pick(vec![0, 1, 2], vec![0, 1, 2, 3]), dir: dir.clone(), devs, max_devs: tier.pick(2, 3), user }, Strategy::Bfs, Some(tier.pick(50, 2400)), b));
     }
     drive(rep, jobs, replay)
 }
